@@ -143,6 +143,32 @@ class Probe:
     __str__ = __repr__
 
 
+class RendersItself:
+    """an object that is callable *and* renders itself when given the
+    namespace (a DTML method, a script): name lookup in a tag must use the
+    second protocol; an expression gets the object itself"""
+
+    def __init__(self, world, ident):
+        self._world, self._ident = world, ident
+
+    def __render_with_namespace__(self, md):
+        self._world.point(self._ident)
+        try:
+            who = md['who']
+        except KeyError:
+            who = '-'
+        return '%s~%s' % (self._ident, who)
+
+    def __call__(self, *args):
+        self._world.point(self._ident + ':called')
+        return '%s:called' % self._ident
+
+    def __repr__(self):
+        return '<rwn %s>' % (self._ident,)
+
+    __str__ = __repr__
+
+
 class World:
     def __init__(self, mode, syntax='dtml', style=None, faults=None,
                  template_factory=None):
@@ -185,6 +211,8 @@ class World:
             world = self
 
             return Probe(world, ident, ret)
+        if k == 'rwn':
+            return RendersItself(self, spec[1])
         if k == 'probeseq':
             return Probe(self, spec[1], spec[2], seq=True)
         if k == 'probef':
